@@ -12,6 +12,7 @@ EXPLANATION = (
     "limit, window or screening; Lmdb::index in store_event is dominated by the false edge of is_ephemeral(kind) "
     "while the append is not, and the ephemeral range constant equals 20000..30000. 'Exactly' over all store "
     "contents depends on query exactness (C05) and is not decided.")
+EXPLANATION += " Also decided: every Ok return of vanish lies behind the Ok outcome of both queries; deindex deletes, under the same conditions, every entry index_event puts."
 ASSUMPTIONS = []
 
 
